@@ -20,3 +20,11 @@ type EventProcessor interface {
 
 // Event represents a generic blockchain event that can be processed.
 type Event interface{}
+
+// RangeSplitter is implemented by processors whose stored events change what other processors
+// have to fetch in later blocks (e.g. newly registered event triggers). The syncer commits a
+// range up to the first such block before it examines the blocks after it.
+type RangeSplitter interface {
+	// EventBlockNumbers returns the block numbers of the given events fetched by this processor.
+	EventBlockNumbers(events []Event) []uint64
+}
